@@ -5,7 +5,7 @@ from vlib import synthcheck
 ID = "C06"
 SHARDS = 64
 RULE = (
-    "same program generator as C02 restricted to functions returning one bool, optimizer {default, fast}, uncompute=True; the circuit "
+    "same program generator as C02 restricted to functions returning one bool, optimizer {default, fast}, uncompute=True (40%: re-compiled on the same object); the circuit "
     "is simulated on ALL 2^(n+1) pairs (x, y) with y placed on the output qubit: the output must end as y xor f(x), inputs unchanged, "
     "all other qubits zero. Non-trivial = f not constant and at least one scratch qubit is touched; distinct by canonical JSON of the case"
 )
